@@ -185,20 +185,20 @@ Hypothesis Hminus : exists i, sc_spindex_opname T "-" = Some (i, "-").
 
 (* which rewrite happened, with what it needs to be interpreted (C01_sem.v) *)
 Inductive RCase (Self UA R : unit) : Prop :=
-| RC_sum3 a0 a1 va o : opname Self = "+" -> ukind UA = KBin -> opname UA = "+" -> ins UA = [a0; a1] ->
+| RC_sum3 a0 a1 va o ch : va = O (uid UA) ch -> opname Self = "+" -> ukind UA = KBin -> opname UA = "+" -> ins UA = [a0; a1] ->
     (ins Self = [va; o] \/ ins Self = [o; va]) -> ukind R = KSum3 -> Permutation (ins R) [a0; a1; o] -> RCase Self UA R
-| RC_sum3_same a0 a1 va : opname Self = "+" -> ukind UA = KBin -> opname UA = "+" -> ins UA = [a0; a1] ->
+| RC_sum3_same a0 a1 va ch : va = O (uid UA) ch -> opname Self = "+" -> ukind UA = KBin -> opname UA = "+" -> ins UA = [a0; a1] ->
     ins Self = [va; va] -> ukind R = KSum4 -> Permutation (ins R) [a0; a0; a1; a1] -> RCase Self UA R
-| RC_sum4 a0 a1 a2 va o : opname Self = "+" -> ukind UA = KSum3 -> ins UA = [a0; a1; a2] ->
+| RC_sum4 a0 a1 a2 va o ch : va = O (uid UA) ch -> opname Self = "+" -> ukind UA = KSum3 -> ins UA = [a0; a1; a2] ->
     (ins Self = [va; o] \/ ins Self = [o; va]) -> ukind R = KSum4 -> Permutation (ins R) [a0; a1; a2; o] -> RCase Self UA R
-| RC_muladd x0 x1 va o : opname Self = "+" -> ukind UA = KBin -> opname UA = "*" -> ins UA = [x0; x1] ->
+| RC_muladd x0 x1 va o ch : va = O (uid UA) ch -> opname Self = "+" -> ukind UA = KBin -> opname UA = "*" -> ins UA = [x0; x1] ->
     (ins Self = [va; o] \/ ins Self = [o; va]) -> ukind R = KMulAdd ->
     (ins R = [x0; x1; o] \/ ins R = [x1; x0; o]) -> RCase Self UA R
-| RC_addneg_b b0 va o : opname Self = "+" -> ukind UA = KUn -> opname UA = "neg" -> ins UA = [b0] ->
+| RC_addneg_b b0 va o ch : va = O (uid UA) ch -> opname Self = "+" -> ukind UA = KUn -> opname UA = "neg" -> ins UA = [b0] ->
     ins Self = [o; va] -> ukind R = KBin -> opname R = "-" -> ins R = [o; b0] -> RCase Self UA R
-| RC_addneg_a a0 va o : opname Self = "+" -> ukind UA = KUn -> opname UA = "neg" -> ins UA = [a0] ->
+| RC_addneg_a a0 va o ch : va = O (uid UA) ch -> opname Self = "+" -> ukind UA = KUn -> opname UA = "neg" -> ins UA = [a0] ->
     ins Self = [va; o] -> ukind R = KBin -> opname R = "-" -> ins R = [o; a0] -> RCase Self UA R
-| RC_sub b0 va o : opname Self = "-" -> ukind UA = KUn -> opname UA = "neg" -> ins UA = [b0] ->
+| RC_sub b0 va o ch : va = O (uid UA) ch -> opname Self = "-" -> ukind UA = KUn -> opname UA = "neg" -> ins UA = [b0] ->
     ins Self = [o; va] -> ukind R = KBin -> opname R = "+" -> ins R = [o; b0] -> RCase Self UA R.
 
 Inductive RwStep (s : st) (D : list nat) (self : nat) (Self : unit) (s' : st) : Prop :=
@@ -408,14 +408,14 @@ Proof.
       * right. split; auto. intro i. rewrite HinsA. simpl. tauto.
       * cbn beta. destruct (sum4_shape T (remove_ugen s (uid UA)) a0 a0 a1 a1 (rm_rw _) Na0 Na0 Na1 Na1) as (s2 & rv & R & A & B & C).
         exists s2, rv, R. split; auto. split; auto.
-        eapply (RC_sum3_same Self UA R a0 a1 x); eauto. destruct B; auto.
+        eapply (RC_sum3_same Self UA R a0 a1 x ch); eauto; try (rewrite Hua; exact Ex). destruct B; auto.
     + eapply (absorb_bin x y KBin "+" UA _ [a0; a1; y]); eauto.
       * left. split.
         -- rewrite Hua. exact (other_ne x y a ch UA Hx Hy Ex HA MA Exy).
         -- intro i. rewrite HinsA. simpl. intuition.
       * cbn beta. destruct (sum3_shape T (remove_ugen s (uid UA)) a0 a1 y (rm_rw _) Na0 Na1 Ny) as (s2 & rv & R & A & B & C).
         exists s2, rv, R. split; auto. split; auto.
-        eapply (RC_sum3 Self UA R a0 a1 x y); eauto. destruct B; auto.
+        eapply (RC_sum3 Self UA R a0 a1 x y ch); eauto; try (rewrite Hua; exact Ex). destruct B; auto.
   - destruct (sole_total_in y KBin "+" Hy) as [o2 S2]. rewrite S2. cbn [bind].
     destruct o2 as [UB|]; [|left; reflexivity].
     destruct (sole_some s y KBin "+" UB S2) as (b & ch & l & Ey & HB & MB & KB & OB & _).
@@ -429,7 +429,7 @@ Proof.
       * intro i. rewrite HinsB. simpl. intuition.
     + cbn beta. destruct (sum3_shape T (remove_ugen s (uid UB)) b0 b1 x (rm_rw _) Nb0 Nb1 Nx) as (s2 & rv & R & A & B & C).
       exists s2, rv, R. split; auto. split; auto.
-      eapply (RC_sum3 Self UB R b0 b1 y x); eauto. destruct B; auto.
+      eapply (RC_sum3 Self UB R b0 b1 y x ch); eauto; try (rewrite (I_uid s D HI b UB HB); exact Ey). destruct B; auto.
 Qed.
 
 Lemma inp_eqb_sym : forall x y, inp_eqb x y = inp_eqb y x.
@@ -459,7 +459,7 @@ Proof.
       * intro i. rewrite HinsA. simpl. intuition.
     + cbn beta. destruct (sum4_shape T (remove_ugen s (uid UA)) a0 a1 a2 y (rm_rw _) Na0 Na1 Na2 Ny) as (s2 & rv & R & A & B & C).
       exists s2, rv, R. split; auto. split; auto.
-      eapply (RC_sum4 Self UA R a0 a1 a2 x y); eauto. destruct B; auto.
+      eapply (RC_sum4 Self UA R a0 a1 a2 x y ch); eauto; try (rewrite Hua; exact Ex). destruct B; auto.
   - destruct (sole_total_in y KSum3 "" Hy) as [o2 S2]. rewrite S2. cbn [bind].
     destruct o2 as [UB|]; [|left; reflexivity].
     destruct (sole_some s y KSum3 "" UB S2) as (b & ch & l & Ey & HB & MB & KB & OB & _).
@@ -473,7 +473,7 @@ Proof.
       * intro i. rewrite HinsB. simpl. intuition.
     + cbn beta. destruct (sum4_shape T (remove_ugen s (uid UB)) b0 b1 b2 x (rm_rw _) Nb0 Nb1 Nb2 Nx) as (s2 & rv & R & A & B & C).
       exists s2, rv, R. split; auto. split; auto.
-      eapply (RC_sum4 Self UB R b0 b1 b2 y x); eauto. destruct B; auto.
+      eapply (RC_sum4 Self UB R b0 b1 b2 y x ch); eauto; try (rewrite (I_uid s D HI b UB HB); exact Ey). destruct B; auto.
 Qed.
 
 (* one side of _optimize_to_muladd *)
@@ -502,7 +502,7 @@ Proof.
       destruct (muladd_shape T (remove_ugen s (uid UX)) x0 x1 y (rm_rw _) Z1 Z4 Z5 Ky) as (s2 & rv & R & A & B & C & E).
       { rewrite (can_be_muladd_units s); auto. }
       exists s2, rv, R. split; auto. split; auto.
-      eapply (RC_muladd Self UX R x0 x1 x y); eauto.
+      eapply (RC_muladd Self UX R x0 x1 x y ch); eauto; try (rewrite Hua; exact Ex).
   - destruct (can_be_muladd s x1 x0 y) eqn:C2; [|left; reflexivity].
     eapply (absorb_bin x y KBin "*" UX _ [x1; x0; y]); eauto.
     + left. split; auto. intro i. rewrite HinsA. simpl. intuition.
@@ -510,7 +510,7 @@ Proof.
       destruct (muladd_shape T (remove_ugen s (uid UX)) x1 x0 y (rm_rw _) Z0 Z2 Z3 Ky) as (s2 & rv & R & A & B & C & E).
       { rewrite (can_be_muladd_units s); auto. }
       exists s2, rv, R. split; auto. split; auto.
-      eapply (RC_muladd Self UX R x0 x1 x y); eauto.
+      eapply (RC_muladd Self UX R x0 x1 x y ch); eauto; try (rewrite Hua; exact Ex).
 Qed.
 
 Lemma muladd_stage : opname Self = "+" -> Result (opt_muladd T s Self).
@@ -551,7 +551,7 @@ Proof.
       destruct (ctor_bin_shape T (remove_ugen s (uid UB)) "-" x (O v c) (rm_rw _) Hminus (or_intror eq_refl) Nx eq_refl)
         as (s2 & rv & R & A & B & C & E & F).
       exists s2, rv, R. split; auto. split; auto.
-      eapply (RC_addneg_b Self UB R (O v c) y x); eauto.
+      eapply (RC_addneg_b Self UB R (O v c) y x ch); eauto; try (rewrite Hub; exact Ey).
   - destruct (sole_total_in x KUn "neg" Hx) as [o2 S2]. rewrite S2. cbn [bind].
     destruct o2 as [UA|]; [|left; reflexivity].
     destruct (sole_some s x KUn "neg" UA S2) as (a & ch & l & Ex & HA & MA & KA & OA & _).
@@ -568,7 +568,7 @@ Proof.
       destruct (ctor_bin_shape T (remove_ugen s (uid UA)) "-" y (O v c) (rm_rw _) Hminus (or_intror eq_refl) Ny eq_refl)
         as (s2 & rv & R & A & B & C & E & F).
       exists s2, rv, R. split; auto. split; auto.
-      eapply (RC_addneg_a Self UA R (O v c) x y); eauto.
+      eapply (RC_addneg_a Self UA R (O v c) x y ch); eauto; try (rewrite Hua; exact Ex).
 Qed.
 
 Definition Stepped (s' : st) : Prop := s' = s \/ (RwStep s D self Self s' /\ Inv s' D).
@@ -620,7 +620,7 @@ Proof.
       destruct (ctor_bin_shape T (remove_ugen s (uid UB)) "+" x (O v c) (rm_rw _) Hplus (or_introl eq_refl) Nx eq_refl)
         as (s2 & rv & R & A & B & C & E & F).
       exists s2, rv, R. split; auto. split; auto.
-      eapply (RC_sub Self UB R (O v c) y x); eauto. }
+      eapply (RC_sub Self UB R (O v c) y x ch); eauto; try (rewrite Hub; exact Ey). }
   destruct R as [E|(s3 & s' & E & Rp & St & Iv)].
   - exfalso. unfold absorb in E. destruct (ctor_bin T (remove_ugen s (uid UB)) "+" x (O v c)) as [[s2 rv]|e]; cbn [bind] in E; [|discriminate].
     destruct (adopt s2 Self rv (uid UB)) as [[s3 r]|e]; cbn [bind] in E; discriminate.
